@@ -18,7 +18,8 @@ for i in 01 02 03 04 05 06 07 08 09 10 11 12 13 14 15 16 17 18 19 20; do
 done
 mkdir -p $W/merged && go tool covdata merge -i=$GOCOVERDIR -o=$W/merged
 go tool covdata textfmt -i=$W/merged -o=$W/cover.txt
-(cd ${ZN_REPO:-/repo} && go tool cover -func=$W/cover.txt) > $V/coverage-$TIER.txt
+grep -v "^znharness/" $W/cover.txt > $W/cover2.txt
+(cd ${ZN_REPO:-/repo} && go tool cover -func=$W/cover2.txt) > $V/coverage-$TIER.txt
 tail -1 $V/coverage-$TIER.txt
 cd /
 rm -rf $W
